@@ -79,11 +79,11 @@ theorem isa_unop {op : String} (hop : op = "inc" ∨ op = "dec" ∨ op = "clr") 
     Isa.exec a plen op body vm = some { vm with pc := vm.pc + 1, regs := vm.regs.set (Isa.field body 0 a.r) v } := by
   rcases hop with rfl | rfl | rfl <;> simp [Isa.exec, Isa.pipeOps, hx, hv]
 
-theorem isa_binop {op : String} (hop : op = "add" ∨ op = "cpy") {d s v : Nat}
+theorem isa_binop {op : String} (hop : op = "add" ∨ op = "cpy" ∨ op = "mult" ∨ op = "div") {d s v : Nat}
     (hd : vm.regs[Isa.field body 0 a.r]? = some d) (hs : vm.regs[Isa.field body a.r a.r]? = some s)
     (hv : Isa.binop op a.rsize d s = some v) :
     Isa.exec a plen op body vm = some { vm with pc := vm.pc + 1, regs := vm.regs.set (Isa.field body 0 a.r) v } := by
-  rcases hop with rfl | rfl <;> simp [Isa.exec, Isa.pipeOps, hd, hs, hv]
+  rcases hop with rfl | rfl | rfl | rfl <;> simp [Isa.exec, Isa.pipeOps, hd, hs, hv]
 
 theorem isa_j (hv : Isa.field body 0 a.o < plen) :
     Isa.exec a plen "j" body vm = some { vm with pc := Isa.field body 0 a.o } := by simp [Isa.exec, Isa.pipeOps, hv]
@@ -197,11 +197,11 @@ theorem vm_unop {op : String} (hop : op = "inc" ∨ op = "dec" ∨ op = "clr") {
   rw [← hf] at hx ⊢
   exact isa_unop hop hx hv
 
-theorem vm_binop {op : String} (hop : op = "add" ∨ op = "cpy") {d s : Nat}
+theorem vm_binop {op : String} (hop : op = "add" ∨ op = "cpy" ∨ op = "mult" ∨ op = "div") {d s : Nat}
     (h : Encode.asm a ⟨op, [.reg d, .reg s]⟩ = .ok w) :
     d < 2 ^ a.r ∧ s < 2 ^ a.r ∧ ∀ x y v, vm.regs[d]? = some x → vm.regs[s]? = some y → Isa.binop op a.rsize x y = some v →
       Isa.exec a plen op (w.drop a.opBits) vm = some { vm with pc := vm.pc + 1, regs := vm.regs.set d v } := by
-  have hl : layout op = some [.reg, .reg] ∧ lenientArity op = false := by rcases hop with rfl | rfl <;> decide
+  have hl : layout op = some [.reg, .reg] ∧ lenientArity op = false := by rcases hop with rfl | rfl | rfl | rfl <;> decide
   obtain ⟨hf, _⟩ := asm_fields h (fs := [.reg, .reg]) hl.1 hl.2
   rw [dec_rr] at hf
   simp only [List.cons.injEq, Operand.reg.injEq, and_true] at hf
@@ -379,7 +379,7 @@ theorem exec_matches {a : Arch} {c : SecCtx} {e : Env} {A : Nat → Nat} {plen :
       ∃ vm', Isa.exec a plen "cpy" (w.drop a.opBits) vm = some vm' ∧ Sim a e A r' vm' ∧ PosNext c r r' := by
     intro d s h hx
     cases hx
-    obtain ⟨hd, hs, hexec⟩ := vm_binop (plen := plen) (vm := vm) (Or.inr rfl) h
+    obtain ⟨hd, hs, hexec⟩ := vm_binop (plen := plen) (vm := vm) (Or.inr (Or.inl rfl)) h
     exact ⟨_, hexec _ _ _ (regGet d hd) (regGet s hs) (by simp [Isa.binop]), mkSim d _, Or.inl rfl⟩
   have caseJ : ∀ t, Encode.asm a ⟨"j", [resolveArg tbl (.sym t)]⟩ = .ok w →
       (labelPos c.lines t).map (fun p => ({ r with pos := p } : RefState)) = some r' →
@@ -541,21 +541,40 @@ theorem exec_matches {a : Arch} {c : SecCtx} {e : Env} {A : Nat → Nat} {plen :
       obtain ⟨hd, hs, hexec⟩ := vm_binop (plen := plen) (vm := vm) (Or.inl rfl) (by simpa [resolveArg] using hasm)
       exact ⟨_, hexec _ _ _ (regGet d hd) (regGet s hs) (by simp [Isa.binop, hstd]), mkSim d _, Or.inl rfl⟩
     · cases hex
-  case h_11 n hop hargs =>   -- j <number>: no source-level meaning
+  case h_11 d s hop hargs =>   -- mult
+    simp only [Option.some.injEq, Prod.mk.injEq] at hm; obtain ⟨rfl, rfl⟩ := hm
+    simp only [execLine, hop, hargs, hrs'] at hex
+    split at hex
+    · rename_i hstd
+      cases hex
+      obtain ⟨hd, hs, hexec⟩ := vm_binop (plen := plen) (vm := vm) (Or.inr (Or.inr (Or.inl rfl))) (by simpa [resolveArg] using hasm)
+      exact ⟨_, hexec _ _ _ (regGet d hd) (regGet s hs) (by simp [Isa.binop, hstd]), mkSim d _, Or.inl rfl⟩
+    · cases hex
+  case h_12 d s hop hargs =>   -- div
+    simp only [Option.some.injEq, Prod.mk.injEq] at hm; obtain ⟨rfl, rfl⟩ := hm
+    simp only [execLine, hop, hargs, hrs'] at hex
+    split at hex
+    · rename_i hstd
+      cases hex
+      simp only [Bool.and_eq_true, decide_eq_true_eq] at hstd
+      obtain ⟨hd, hs, hexec⟩ := vm_binop (plen := plen) (vm := vm) (Or.inr (Or.inr (Or.inr rfl))) (by simpa [resolveArg] using hasm)
+      exact ⟨_, hexec _ _ _ (regGet d hd) (regGet s hs) (by simp [Isa.binop, hstd.1, hstd.2]), mkSim d _, Or.inl rfl⟩
+    · cases hex
+  case h_13 n hop hargs =>   -- j <number>: no source-level meaning
     simp only [execLine, hop, hargs, ioKind] at hex; cases hex
-  case h_12 t hop hargs =>   -- j <label>
+  case h_14 t hop hargs =>   -- j <label>
     simp only [Option.some.injEq, Prod.mk.injEq] at hm; obtain ⟨rfl, rfl⟩ := hm
     simp only [execLine, hop, hargs, hrs'] at hex
     exact caseJ t (by simpa using hasm) hex
-  case h_13 n hop hargs =>   -- jmp <number>
+  case h_15 n hop hargs =>   -- jmp <number>
     simp only [execLine, hop, hargs, ioKind] at hex; cases hex
-  case h_14 t hop hargs =>   -- jmp <label>
+  case h_16 t hop hargs =>   -- jmp <label>
     simp only [Option.some.injEq, Prod.mk.injEq] at hm; obtain ⟨rfl, rfl⟩ := hm
     simp only [execLine, hop, hargs, hrs'] at hex
     exact caseJ t (by simpa using hasm) hex
-  case h_15 k n hop hargs =>   -- jz reg, <number>
+  case h_17 k n hop hargs =>   -- jz reg, <number>
     simp only [execLine, hop, hargs, ioKind] at hex; cases hex
-  case h_16 k t hop hargs =>   -- jz reg, <label>
+  case h_18 k t hop hargs =>   -- jz reg, <label>
     simp only [Option.some.injEq, Prod.mk.injEq] at hm; obtain ⟨rfl, rfl⟩ := hm
     simp only [execLine, hop, hargs, hrs'] at hex
     split at hex
@@ -575,19 +594,19 @@ theorem exec_matches {a : Arch} {c : SecCtx} {e : Env} {A : Nat → Nat} {plen :
         · simp only [hz, if_true]; rw [hva]; exact ⟨simJump p, Or.inr (Or.inl ⟨t, hp⟩)⟩
         · simp only [hz, if_false]; exact ⟨simNext, Or.inl rfl⟩
     · cases hex
-  case h_17 k i hop hargs =>   -- i2r
+  case h_19 k i hop hargs =>   -- i2r
     simp only [Option.some.injEq, Prod.mk.injEq] at hm; obtain ⟨rfl, rfl⟩ := hm
     exact caseI2r k i (by simpa [resolveArg] using hasm) (execLine_i2r hop hargs hex)
-  case h_18 k i hop hargs =>   -- i2rw
+  case h_20 k i hop hargs =>   -- i2rw
     simp only [Option.some.injEq, Prod.mk.injEq] at hm; obtain ⟨rfl, rfl⟩ := hm
     exact caseI2rw k i (by simpa [resolveArg] using hasm) (execLine_i2rw hop hargs hex)
-  case h_19 k o hop hargs =>   -- r2o
+  case h_21 k o hop hargs =>   -- r2o
     simp only [Option.some.injEq, Prod.mk.injEq] at hm; obtain ⟨rfl, rfl⟩ := hm
     exact caseR2o k o (by simpa [resolveArg] using hasm) (execLine_r2o hop hargs hex)
-  case h_20 k o hop hargs =>   -- r2owa
+  case h_22 k o hop hargs =>   -- r2owa
     simp only [Option.some.injEq, Prod.mk.injEq] at hm; obtain ⟨rfl, rfl⟩ := hm
     exact caseR2owa k o (by simpa [resolveArg] using hasm) (execLine_r2owa hop hargs hex)
-  case h_21 k i hop hargs =>   -- mov reg, input
+  case h_23 k i hop hargs =>   -- mov reg, input
     cases hmd : lineMode c.mode l with
     | none => simp [hmd] at hm
     | some md =>
@@ -598,7 +617,7 @@ theorem exec_matches {a : Arch} {c : SecCtx} {e : Env} {A : Nat → Nat} {plen :
       | sync =>
         simp only [hmd, Option.some.injEq, Prod.mk.injEq] at hm; obtain ⟨rfl, rfl⟩ := hm
         exact caseI2rw k i (by simpa [resolveArg] using hasm) (execLine_movin_sync hop hargs hmd hex)
-  case h_22 o k hop hargs =>   -- mov output, reg
+  case h_24 o k hop hargs =>   -- mov output, reg
     cases hmd : lineMode c.mode l with
     | none => simp [hmd] at hm
     | some md =>
@@ -609,7 +628,7 @@ theorem exec_matches {a : Arch} {c : SecCtx} {e : Env} {A : Nat → Nat} {plen :
       | sync =>
         simp only [hmd, Option.some.injEq, Prod.mk.injEq] at hm; obtain ⟨rfl, rfl⟩ := hm
         exact caseR2owa k o (by simpa [resolveArg] using hasm) (execLine_movout_sync hop hargs hmd hex)
-  case h_23 => cases hm
+  case h_25 => cases hm
 
 
 /-! ### positions, addresses, labels -/
